@@ -56,8 +56,13 @@ Bad(e) ==
                  <<"C19:first_is_e", e.first_is_root>>,
                  <<"C19:no_duplicates", e.distinct = e.len /\ e.stable>>,
                  <<"C19:closed_under_char_derivative", e.op = "closure" => (e.nnodes = e.niter /\ e.niter = e.len)>>,
-                 <<"C19:every_item_is_a_derivative_of_an_earlier_one",
-                    e.op = "closure" => \A k \in 2..e.niter : \E a \in 1..(k - 1) : \E j \in 1..e.nreps : e.delta[a][j] = k>>,
+                 \* nothing else: every listed term is an iterated derivative of the first one
+                 <<"C19:every_item_is_an_iterated_derivative",
+                    e.op = "closure" =>
+                      LET RECURSIVE Cl(_, _)
+                          Cl(fr, seen) == IF fr = {} THEN seen
+                                          ELSE LET nx == {e.delta[a][j] : a \in fr, j \in 1..e.nreps} \ seen IN Cl(nx, seen \cup nx)
+                      IN 1..e.niter \subseteq Cl({1}, {1})>>,
                  <<"C19:try_compile_bound",
                     /\ res("0").res = "none"
                     /\ res("L-1").res = "none"
